@@ -513,7 +513,14 @@ func c07Faults() []fault {
 			return "list-below-min-elements:empty-map"
 		}},
 		{"choice-two-cases", func(cfg *lib.Cfg, t ygot.GoStruct, rng *rand.Rand) string {
-			// find a struct with a set field in a case and an unset leaf field of another case of the same choice
+			// a struct with a set field in one case and an unset leaf of another case of the same
+			// choice (at any nesting level); one candidate is chosen at random
+			type cand struct {
+				n    *lib.Node
+				g    *lib.FieldInfo
+				feat string
+			}
+			var cands []cand
 			for _, n := range cfg.Nodes(t) {
 				for _, f := range n.Info.Fields {
 					if len(f.Choices) == 0 || !isSet(n.V.Elem().Field(f.Idx)) {
@@ -537,18 +544,27 @@ func c07Faults() []fault {
 						if lvl < 0 {
 							continue
 						}
-						gen := lib.NewGen(cfg, rng.Int63(), 0, lib.DefaultGen())
-						nv := gen.ScalarFor(n.V.Elem(), g, n.V.Elem().Field(g.Idx).Type())
-						if !nv.IsValid() {
-							continue
+						feat := "choice-two-cases"
+						if lvl > 0 {
+							feat += ":nested"
 						}
-						n.V.Elem().Field(g.Idx).Set(nv)
-						if lvl == 0 {
-							return "choice-two-cases"
+						// a shorthand case is a case named after its only node
+						if f.Choices[lvl].Case == f.Path[len(f.Path)-1] || g.Choices[lvl].Case == g.Path[len(g.Path)-1] {
+							feat += ":shorthand-case"
 						}
-						return "choice-two-cases:nested"
+						cands = append(cands, cand{n, g, feat})
 					}
 				}
+			}
+			for tries := 0; tries < 6 && len(cands) > 0; tries++ {
+				c := cands[rng.Intn(len(cands))]
+				gen := lib.NewGen(cfg, rng.Int63(), 0, lib.DefaultGen())
+				nv := gen.ScalarFor(c.n.V.Elem(), c.g, c.n.V.Elem().Field(c.g.Idx).Type())
+				if !nv.IsValid() {
+					continue
+				}
+				c.n.V.Elem().Field(c.g.Idx).Set(nv)
+				return c.feat
 			}
 			return ""
 		}},
